@@ -110,11 +110,42 @@ def search_tests(ev, guards) -> List[Tuple[Term, Term, Term]]:
                 it, each, (ifs, elt) = s
                 out.append((it, each, mk_and(tuple(ifs) + (elt,))))
             continue
-        nt = none_test(t)
-        if nt and isinstance(nt[0], Call) and isinstance(nt[0].func, Ext) and nt[0].func.name == 'next' and len(nt[0].args) == 2 and nt[0].args[1] == Const(None) \
-                and (nt[1] != pol2):
+        # next(<filtered source>, SENTINEL) is not SENTINEL  (None, or a module-level object())
+        nt = None
+        if isinstance(t, Op) and t.op in ('is', 'is not', '==', '!=') and len(t.args) == 2:
+            for a, b in (t.args, t.args[::-1]):
+                if isinstance(a, Call) and isinstance(a.func, Ext) and a.func.name == 'next' and len(a.args) == 2 and a.args[1] == b \
+                        and (b == Const(None) or (isinstance(b, Call) and isinstance(b.func, Ext) and b.func.name == 'object' and not b.args)):
+                    nt = (a, t.op in ('is', '=='))
+        if nt and (nt[1] != pol2):
             s = source(nt[0].args[0])
             if s:
                 it, each, (ifs, elt) = s
-                out.append((it, each, mk_and(tuple(ifs))))
+                if elt == each and ifs:
+                    out.append((it, each, mk_and(tuple(ifs))))
     return out
+
+
+def exists_form(ev, outs) -> Optional[Tuple[Term, Term, Term]]:
+    """(iterable, element symbol, condition) when the outcomes are those of `there is an element of <iterable> with
+    <condition>`: `return any(c(x) for x in it)`, or a loop that returns True at the first match and False after it."""
+    rets = [o for o in outs if o.kind == 'return']
+    if len(rets) != len(outs) or not rets:
+        return None
+    if len(rets) == 1 and not rets[0].guards:
+        found = search_tests(ev, ((rets[0].value, True),))
+        return found[0] if len(found) == 1 else None
+    if len(rets) == 2:
+        hit = [o for o in rets if o.value == Const(True)]
+        miss = [o for o in rets if o.value == Const(False) and not o.guards]
+        if len(hit) == 1 and len(miss) == 1:
+            it = [g for g, pol in hit[0].guards if isinstance(g, Op) and g.op == 'iterating' and pol]
+            rest = [(g, pol) for g, pol in hit[0].guards if not (isinstance(g, Op) and g.op == 'iterating')]
+            loops = [e for e in miss[0].effects if isinstance(e, Loop)]
+            if len(it) == 1 and len(loops) == 1 and loops[0].iter == it[0].args[0] and not loops[0].raises and all(not effs for _, _, _, effs in loops[0].paths) \
+                    and len(miss[0].effects) == 1 and rest and all(pol for _, pol in rest):
+                each = [x for g, _ in rest for x in walk(g) if isinstance(x, Sym) and x.name.startswith('each:')]
+                if each and all(e == each[0] for e in each):
+                    conds = tuple(g for g, _ in rest)
+                    return it[0].args[0], each[0], conds[0] if len(conds) == 1 else Op('and', conds)
+    return None
